@@ -29,6 +29,19 @@ HELPS = ["stage S(\n    in  int  x     \"help with \\\"quotes\\\" and \\\\ backs
          "    vmem_gb  = 8,\n    special  = \"queue=long\",\n    volatile = strict,\n) retain (\n    x,\n)\n".replace("retain (\n    x,", "retain (\n"),
          ]
 
+# optional clauses that are present but empty: they still mean something (a stage with
+# `split ( )` is a splitting stage)
+EMPTY_CLAUSES = [
+    "stage S(\n    in  int x,\n    out int y,\n    src py \"s\",\n) split (\n)\n",
+    "stage S(\n    in  int x,\n    out int y,\n    src py \"s\",\n) split using (\n)\n",
+    "stage S(\n    in  int x,\n    out int y,\n    src py \"s\",\n) split (\n) using (\n    mem_gb = 1,\n) retain (\n)\n",
+    "stage S(\n    in  int x,\n    out int y,\n    src py \"s\",\n) retain (\n)\n",
+    "stage S(\n    in  int x,\n    out int y,\n    src py \"s\",\n) split (\n    # only a comment\n) retain (\n    # nothing kept\n)\n",
+    "stage S(\n    in  int x,\n    out int y,\n    src py \"s\",\n) split (\n)\n\npipeline P(\n    in  int x,\n    out int y,\n)\n{\n    call S(\n        x = self.x,\n    )\n\n"
+    "    return (\n        y = S.y,\n    )\n\n    retain (\n    )\n}\n\ncall P(\n    x = 1,\n)\n",
+    "stage S(\n    src py \"s\",\n)\n\npipeline P(\n)\n{\n    call S(\n    )\n\n    return (\n    )\n}\n\ncall P(\n)\n",
+]
+
 MODIFIER_SYNTAXES = [
     "stage S(\n    in  int x,\n    out int y,\n    src py \"s\",\n)\n\npipeline P(\n    in  int x,\n    out int y,\n)\n{\n"
     "    call local preflight S as A(\n        x = self.x,\n    )\n\n    call volatile S as B(\n        x = self.x,\n    )\n\n"
@@ -90,11 +103,109 @@ def include_graphs():
     return [{"id": "inc_diamond", "files": diamond, "top": "top.mro"}, {"id": "inc_wildcard", "files": wild, "top": "top.mro"}]
 
 
+RICH = """filetype txt;
+filetype a.b;
+
+struct T(
+    int   a "field help",
+    txt[] g,
+)
+
+stage S(
+    in  int  x     "the input",
+    in  map  m,
+    out int  y,
+    out file f     "a file"  "named.bin",
+    src py   "s",
+) split (
+    in  int  c,
+    out int  d,
+) using (
+    mem_gb   = 2,
+    threads  = 1,
+    volatile = strict,
+) retain (
+    f,
+    y,
+)
+
+stage U(
+    in  T    t,
+    out int  y,
+    src comp "bin/u arg",
+)
+
+pipeline P(
+    in  int  x,
+    out int  y,
+    out file f,
+)
+{
+    call S(
+        x = self.x,
+        m = {
+            "a": [
+                1,
+                2,
+            ],
+            "b": {
+                "c": null,
+            },
+        },
+    ) using (
+        local    = true,
+        volatile = true,
+    )
+
+    call U(
+        t = {
+            a: S.y,
+            g: [],
+        },
+    )
+
+    map call S as S2(
+        x = split [
+            1,
+            2,
+        ],
+        m = {},
+    )
+
+    return (
+        y = U.y,
+        f = S.f,
+    )
+
+    retain (
+        S.f,
+        S2.f,
+    )
+}
+
+call P(
+    x = 1,
+)
+"""
+
+
+def every_line(src, tag):
+    """the source with one comment inserted before each line in turn (and at the end)"""
+    lines = src.split("\n")
+    out = []
+    for i in range(len(lines)):
+        ind = lines[i][:len(lines[i]) - len(lines[i].lstrip())] if i < len(lines) else ""
+        t = "\n".join(lines[:i] + [ind + "# inserted comment %d" % i] + lines[i:])
+        out.append({"id": "%s:line%d:%s" % (tag, i + 1, lines[i].strip()[:24]), "files": {"p.mro": t}, "top": "p.mro"})
+    return out
+
+
 def corpus(tier, repo="/repo"):
     out = []
+    out += every_line(RICH, "rich")
     for i, lit in enumerate(LITERALS):
         out.append({"id": "lit%d:%s" % (i, lit[:20]), "files": {"p.mro": literal_program(i, lit)}, "top": "p.mro"})
-    for i, s in enumerate(HELPS + MODIFIER_SYNTAXES + COMMENTED):
+    for i, s in enumerate(HELPS + MODIFIER_SYNTAXES + COMMENTED + EMPTY_CLAUSES):
         out.append({"id": "hand%d" % i, "files": {"p.mro": s}, "top": "p.mro"})
     out += include_graphs()
     out += repo_sets(repo)
